@@ -286,7 +286,7 @@ class API:
                 @schema.schema(
                     {'$ref': 'reservation.json#/resource_id'},
                     {'allOf': [{'$ref': 'reservation.json#/resource'},
-                               {'$ref': 'reservation.json#/verbs/create'}]}
+                               {'$ref': 'reservation.json#/verbs/update'}]}
                 )
                 def update(rsrc_id, rsrc):
                     """Update reservation.
